@@ -14,11 +14,13 @@ pub struct OscScenario;
 const O_NEXT: u8 = 0;
 const O_SNAPSHOT: u8 = 1;
 const O_BURST: u8 = 2;
+const O_CRASH_NEXT: u8 = 3; // the control signal's next() fails (unwinds) during this call
 
-static OPS: [OpSpec; 3] = [
+static OPS: [OpSpec; 4] = [
     OpSpec { name: "next", shrink: 0 },
     OpSpec { name: "snapshot_clone", shrink: 0 },
     OpSpec { name: "next_many", shrink: 1 },
+    OpSpec { name: "next_control_crashes", shrink: 0 },
 ];
 
 const F_CONTROL_CHANGE: usize = 0;
@@ -28,6 +30,7 @@ const F_SNAPSHOT: usize = 3;
 const F_RESTART: usize = 4;
 const F_SEED_TOP: usize = 5;
 const F_WRAP: usize = 6;
+const F_CONTROL_CRASH: usize = 7;
 
 const P_PHASE_EXACT_ZERO_AFTER_WRAP: usize = 0;
 const P_HUGE_STEP: usize = 1;
@@ -167,6 +170,10 @@ impl Model {
 }
 
 fn build(m: &Model, ctl_pulls: &mut Option<Pulls>) -> Sut {
+    build_with_crash(m, ctl_pulls, &mut None)
+}
+
+fn build_with_crash(m: &Model, ctl_pulls: &mut Option<Pulls>, ctl_crash: &mut Option<std::rc::Rc<std::cell::Cell<u32>>>) -> Sut {
     let rate = signal::rate(m.rate);
     if m.kind == 5 {
         return Sut::Noise(signal::noise(m.seed));
@@ -175,6 +182,7 @@ fn build(m: &Model, ctl_pulls: &mut Option<Pulls>) -> Sut {
         let (mut ctl, pulls) = ProbeSignal::<f64>::with(m.ctl_id, m.ctl_len, ctl_hz as fn(u32, u64) -> f64);
         ctl.loud_after_end = m.ctl_loud;
         *ctl_pulls = Some(pulls);
+        *ctl_crash = Some(ctl.crash.clone());
         let hz = rate.hz(ctl);
         match m.kind {
             0 => Sut::PhaseH(hz.phase()),
@@ -339,6 +347,7 @@ impl Scenario for OscScenario {
             "restart from the same configuration reproduces the recorded prefix",
             "noise seed within 2^16 of u64::MAX",
             "phase wrapped",
+            "control crash: the frequency signal's next() unwinds during a frame, the host catches it and carries on",
         ]
     }
     fn probes(&self) -> &'static [&'static str] {
@@ -417,7 +426,9 @@ impl Scenario for OscScenario {
         obs.note_f64(rate);
         obs.note_f64(hz);
         let mut ctl_pulls: Option<Pulls> = None;
-        let mut sut = build(&m, &mut ctl_pulls);
+        let mut ctl_crash = None;
+        let mut sut = build_with_crash(&m, &mut ctl_pulls, &mut ctl_crash);
+        let allow_crash = ctl_crash.is_some() && src.cfg("allow_crash", 0, 1, |r| r.chance(1, 3) as i64) == 1;
         let mut twin: Option<(Sut, u64)> = None; // clone and how many lock-steps remain
         let mut stale: Option<Sut> = None;
         let mut twin_pulls = 0u64;
@@ -431,6 +442,7 @@ impl Scenario for OscScenario {
                 Some(match r.below(20) {
                     0 => Op::k(O_SNAPSHOT),
                     1 | 2 => Op::ka(O_BURST, r.range(2, 64)),
+                    3 if allow_crash => Op::k(O_CRASH_NEXT),
                     _ => Op::k(O_NEXT),
                 })
             });
@@ -450,6 +462,27 @@ impl Scenario for OscScenario {
                         }
                         None => Some((sut.clone(), 16)),
                     };
+                }
+                O_CRASH_NEXT if ctl_crash.is_some() => {
+                    // the control signal fails on its next pull; the host catches the failure and carries
+                    // on with the same oscillator: no frame was produced, so nothing may have advanced
+                    obs.tick(op.k);
+                    if m.n > 0 {
+                        obs.inflight();
+                    }
+                    let c = ctl_crash.as_ref().unwrap();
+                    c.set(1);
+                    let r = std::panic::catch_unwind(std::panic::AssertUnwindSafe(|| sut.next()));
+                    c.set(0);
+                    match r {
+                        Ok(_) => check!(obs, false, "osc.control-pulls", "output {} was produced without pulling the control signal", m.n),
+                        Err(p) => {
+                            if !p.is::<crate::probe::InjectedCrash>() {
+                                std::panic::resume_unwind(p);
+                            }
+                            obs.fault(F_CONTROL_CRASH);
+                        }
+                    }
                 }
                 O_NEXT | O_BURST => {
                     obs.tick(op.k);
